@@ -168,7 +168,9 @@ def run(prop, conf, params, tier, seed, broken_gate):
             nontriv.add(kcase)
             info = state_info(kind, shape, r["out"])
             if info.get("LOAD") != "ok":
-                add(["C11"], kcase, "the written JSON cannot be read back: %s" % info.get("LOAD"))
+                # (the output path held OTHER, longer content before the run: what is there now is not a function of the
+                #  arguments alone - C09 - and is not the structure the run found - C10, C11)
+                add(["C11", "C09", "C10"], kcase, "the written JSON cannot be read back (the output path held other, longer content before the run): %s" % info.get("LOAD"))
                 continue
             score = fbits(info["SCORE"]) if info.get("SCORE", "-") not in ("-", "") else None
             # C10: the logged score is the score of the written structure
@@ -239,9 +241,13 @@ def run(prop, conf, params, tier, seed, broken_gate):
     p = subprocess.run([binary, "--outfile", os.path.join(wd, "x"), "p3", "circle"], stdout=subprocess.PIPE, stderr=subprocess.PIPE)
     if p.returncode == 0 or b"panicked" in p.stderr:
         add(["C20"], "group=p3", "an unsupported group is not reported as an error")
-    p = subprocess.run([binary, "--outfile", "/nonexistent-dir/x", "--replications", "1", "--steps", "10", "p1", "circle"], stdout=subprocess.PIPE, stderr=subprocess.PIPE)
+    # (the parent of the output path is a regular FILE: no directory can be made there either, whoever runs this)
+    plain = os.path.join(wd, "plainfile")
+    with open(plain, "w") as f:
+        f.write("x")
+    p = subprocess.run([binary, "--outfile", os.path.join(plain, "x"), "--replications", "1", "--steps", "10", "p1", "circle"], stdout=subprocess.PIPE, stderr=subprocess.PIPE)
     if p.returncode == 0 or b"panicked" in p.stderr:
-        add(["C20"], "outfile=/nonexistent-dir/x", "an unwritable output file is not reported as an error (status %d)" % p.returncode)
+        add(["C20"], "outfile=<a regular file>/x", "an unwritable output file is not reported as an error (status %d)" % p.returncode)
     runs += 2
     dist["cli_runs"] = runs
     dist["thread_counts"] = sorted(dist["thread_counts"])
